@@ -388,7 +388,7 @@ NameTable == <<
   [n |-> "HOpCode", up |-> "HOpCode", lo |-> "hOpCode", cls |-> "derived"],
   [n |-> "NewH", up |-> "NewH", lo |-> "newH", cls |-> "derived"],
   [n |-> "GetA", up |-> "GetA", lo |-> "getA", cls |-> "derived"] >>
-NamePositions == << "sfield", "mfield", "sname", "mname", "ename", "emember", "uname", "bname", "bfield", "cname" >>
+NamePositions == << "sfield", "mfield", "sname", "mname", "ename", "emember", "uname", "bname", "bfield", "cname", "rofield" >>
 NHolder(n) == St("H", << F("h", R(n)), F("hs", A(R(n))), F("hm", M("string", R(n))) >>)
 NameItems(pos, n) ==
   CASE pos = "sfield"  -> << St("S", << F(n, P("int32")), F("other", P("string")) >>) >>
@@ -401,6 +401,7 @@ NameItems(pos, n) ==
     [] pos = "bname"   -> << Un("U", << Br(1, St(n, << F("a", P("int32")) >>)), Br(2, Ms("UB", << FI(1, "b", P("int32")) >>)) >>) >>
     [] pos = "bfield"  -> << Un("U", << Br(1, St("UA", << F(n, P("int32")) >>)), Br(2, Ms("UB", << FI(1, n, P("int32")) >>)) >>) >>
     [] pos = "cname"   -> << Co("int32", n, "5"), St("S", << F("a", P("int32")) >>) >>
+    [] pos = "rofield" -> << [St("S", << F(n, P("int32")), F("other", P("string")) >>) EXCEPT !.ro = TRUE] >>   \* (fields of a readonly struct are unexported and get a getter and a constructor parameter)
 NNames == Len(NameTable) * Len(NamePositions)
 NameCase(i) == [pos |-> NamePositions[((i - 1) % Len(NamePositions)) + 1], nm |-> NameTable[((i - 1) \div Len(NamePositions)) + 1]]
 
